@@ -10,6 +10,14 @@ BASELINE_OFF = ("cd /repo && env -u PYOPENAPI_GEN_VERIF /venv/bin/python -m pyte
 
 # id -> (category, technique, level text, level note, design ref)
 CHECKS = {
+    "C16": ("exploration", "runtime monitoring: round-trip law oracles + icontract postcondition on the real converter/serialiser, first-use-order differential in fresh processes",
+            "Random dataclass type trees (depth<=4, list/dict/Optional/nested, 7 leaf types, 4 kinds of Meta key map) are written as source modules, "
+            "imported, and driven through the repository's own structure_from_dict / unstructure_to_dict / DataclassSerializer.serialize; an independent "
+            "encoder supplies the expected JSON and instance. Decode==instance, encode==JSON, encode(decode)==JSON, ValueError-naming-the-field on injected "
+            "un-coercible values, and identical outcomes across three first-use orders in fresh processes (hook-registration history). Cyclic instance "
+            "graphs (11 shapes) for the serialiser with an icontract postcondition (json.dumps-able, no None-valued keys). Held on what was observed.",
+            "Laws stated for total documents; leaf types limited to those the converter documents; cyclic shapes are a fixed list.",
+            "DESIGN.md §4 C16"),
     "C08": ("exploration", "runtime monitoring: shadow tracker + rest-state/final-state assertions hooked on the real cycle tracker, sys.monitoring RAISE/LINE observers",
             "Wrappers installed from the harness around unified_enter_schema/unified_exit_schema, extractor._parse_schema and loader.build_schemas "
             "observe every enter/exit event of the real parser while it loads all 2-node schema multigraphs (8 edge kinds, self-pairs, both orders, "
